@@ -96,7 +96,7 @@ func genClassify(c *Ctx) {
 			}
 		}
 	}
-	n := c.Budget(3000, 60000)
+	n := c.Budget(3000, 40000)
 	for i := 0; i < n; i++ {
 		l := r.Intn(24)
 		p := r.Bytes(l)
